@@ -83,6 +83,9 @@ let () =
            | RFind (st, Some ((sec, off), ln)) -> Buffer.add_string b (Printf.sprintf "#N %d %d %d %d" (int_of_n st) (int_of_n sec) (int_of_n off) (int_of_n ln))
            | RNoFile -> Buffer.add_string b "#-") res;
          print_endline (Buffer.contents b)
+     | "oab", [mode; bs; basehex; hex] ->
+         let (st, out) = if mode = "F" then oab_run (n_of_int (int_of_string bs)) (bytes_of_hex hex) else oab_patch_run (bytes_of_hex hex) (bytes_of_hex basehex) in
+         Printf.printf "%d %s\n" (int_of_n st) (hex_of_bytes out)
      | "lzss", [mode; hex] -> Printf.printf "0 %s\n" (hex_of_bytes (lzss_spec (n_of_int (int_of_string mode)) (bytes_of_hex hex)))
      | _ -> print_endline "?");
     flush stdout
